@@ -324,10 +324,17 @@ class Interp:
             self.bind_args(node.args, args, kwargs, env, clo)
             if isinstance(node, ast.Lambda):
                 return self.eval(node.body, env)
+            is_gen = _is_generator(node)
+            if is_gen:
+                env.vars["__yield__"] = []
             try:
                 self.exec_block(node.body, env)
             except _Return as r:
+                if is_gen:
+                    return env.vars["__yield__"]
                 return r.value
+            if is_gen:
+                return env.vars["__yield__"]
             return None
         finally:
             self.depth -= 1
@@ -509,7 +516,7 @@ class Interp:
             return isinstance(v, Obj) and v.cls is not None and v.cls.is_subclass_of(cls.ci)
         if isinstance(cls, Builtin):
             t = {
-                "int": lambda x: isinstance(x, int) and not isinstance(x, bool),
+                "int": lambda x: (isinstance(x, int) and not isinstance(x, bool)) or (isinstance(x, Rat) and _integer_valued(x)),
                 "float": lambda x: isinstance(x, (float, Fraction)),
                 "complex": lambda x: isinstance(x, complex),
                 "bool": lambda x: isinstance(x, bool),
@@ -804,6 +811,20 @@ class Interp:
             raise AnalysisError(f"unsupported expression {type(node).__name__} at line {getattr(node, 'lineno', '?')}")
         return m(node, env)
 
+    def e_Yield(self, n, env):
+        found, lst = env.lookup("__yield__")
+        if not found:
+            raise AnalysisError("yield outside generator")
+        lst.append(self.eval(n.value, env) if n.value is not None else None)
+        return None
+
+    def e_YieldFrom(self, n, env):
+        found, lst = env.lookup("__yield__")
+        if not found:
+            raise AnalysisError("yield from outside generator")
+        lst.extend(self.iterate(self.eval(n.value, env)))
+        return None
+
     def e_Constant(self, n, env):
         return num(n.value)
 
@@ -1003,6 +1024,8 @@ class Interp:
         return self.binop(_BINOPS[type(n.op)], self.eval(n.left, env), self.eval(n.right, env), n)
 
     def binop(self, op, a, b, node=None):
+        if op == "bitor" and (isinstance(a, (Builtin, ClassRef, ExtRef, type)) or isinstance(b, (Builtin, ClassRef, ExtRef, type))):
+            return ExtRef("typing.Union")  # a type expression such as `slice | int`
         if isinstance(a, AbsVal):
             r = a.av_binop(op, b, False)
             if r is not NotImplemented:
@@ -1178,6 +1201,24 @@ class Interp:
 
 
 _MISSING = object()
+_GEN_CACHE: dict = {}
+
+
+def _is_generator(node) -> bool:
+    k = id(node)
+    if k not in _GEN_CACHE:
+        found = False
+        stack = list(getattr(node, "body", []))
+        while stack:
+            x = stack.pop()
+            if isinstance(x, (ast.Yield, ast.YieldFrom)):
+                found = True
+                break
+            if isinstance(x, (ast.FunctionDef, ast.AsyncFunctionDef, ast.Lambda, ast.ClassDef)):
+                continue
+            stack.extend(ast.iter_child_nodes(x))
+        _GEN_CACHE[k] = found
+    return _GEN_CACHE[k]
 
 
 class SuperProxy(AbsVal):
